@@ -61,10 +61,14 @@ def main():
         sh(['git', '-C', '/repo', 'worktree', 'remove', '--force', wt])
         d = '/verif/seeded/%s' % sid
         os.makedirs(d, exist_ok=True)
-        shutil.copy(patch, os.path.join(d, 'patch.diff'))
-        shutil.copy(demo, os.path.join(d, 'demo' + os.path.splitext(demo)[1]))
+        if os.path.abspath(patch) != os.path.join(d, 'patch.diff'):
+            shutil.copy(patch, os.path.join(d, 'patch.diff'))
+        if os.path.abspath(demo) != os.path.join(d, 'demo' + os.path.splitext(demo)[1]):
+            shutil.copy(demo, os.path.join(d, 'demo' + os.path.splitext(demo)[1]))
         if notes and os.path.exists(notes):
             meta['needs'] = open(notes).read()[:1500]
+        elif os.path.exists(os.path.join(d, 'meta.json')):
+            meta['needs'] = json.load(open(os.path.join(d, 'meta.json'))).get('needs')
         json.dump(meta, open(os.path.join(d, 'meta.json'), 'w'), indent=1)
         print(json.dumps({k: v for k, v in meta.items() if k != 'needs'}, indent=1))
     return meta
